@@ -17,6 +17,7 @@ import random as _random
 from harness.common import Driver, LeanError, Report, f2b, b2f, lean_stage, seeded
 from harness import compat
 from harness.props.stepper_trace import Tracer, traced, TapeOut, classify_exception
+from harness.props.c19 import iter_bound
 
 REGISTRY = dict(
     text=("Lean 4 theorems about the stepping model, for EVERY sequence of squared norms / uniform draws, every chain "
@@ -27,7 +28,12 @@ REGISTRY = dict(
           "(C19 Good/bracket_kept reused); LIVENESS with named hypothesis: with at most J jumps and C19's forced-bisection "
           "guard on the remaining steps (0 < t_k, t_{k+1} < 3 t_k) the run ends within steps+(J+1)(n+2) sweeps; the "
           "unconditional termination claim is refuted (Zeno: n jumps in one step for every n); steps whose bracket "
-          "touches 0 (the first step) are left to C19's unproved TerminatesAlways. Counterexample proved and replayed "
+          "touches 0 (the first step) are left to C19's unproved TerminatesAlways. Props/C18Term.lean removes the "
+          "t_{k+1} < 3 t_k restriction and covers the first step: with a search budget K on the remaining steps (K = n(2m+2) "
+          "when 0 < t_k, t_{k+1} <= t_k 2^m, t_{k+1}-t_k < 2^n; K = n(2m+5) when 0 <= t_k, 2 t_{k+1} <= 2^m — every grid; both "
+          "from C19Term) a search closes within K+2 sweeps and a run with at most J jumps ends within steps+(J+1)(K+2) sweeps, "
+          "from init() on (run_terminates_of_jump_budget); the liveness hypothesis is now only: finitely many jumps. "
+          "Counterexample proved and replayed "
           "on the real code: gap exactly 0 at a step boundary trips the BrentsRootFinder constructor assert (D10, "
           "KNOWN-FINDING), and that is the only way to trip it. Model tied to NoisyMPSBackendImpl by bit-exact event "
           "streams under adversarial tapes."),
@@ -41,6 +47,8 @@ REGISTRY = dict(
 
 PROP_MODULE = "EmuVerif.Props.C18"
 AUDIT = "Audit/C18.lean"
+TERM_MODULE = "EmuVerif.Props.C18Term"
+TERM_AUDIT = "Audit/C18Term.lean"
 KNOWN_CLASS = "C18-gap-zero-at-boundary-assert"
 D10_WITNESS = dict(n=2, times=[0.0, 10.0, 20.0, 30.0],
                    tape=[(1.0, 0.25, 1.0, 0), (0.5, 0.5, 1.0, 0), (0.25, 0.5, 1.0, 0), (0.9, 0.5, 1.0, 0)])
@@ -172,6 +180,7 @@ def oracle(times, recs, tr, status, tape_driven=True):
     """C18's clauses on one real event stream. Returns (message, klass) or None."""
     step, fills, open_since_done = 0, [], False
     first_fill_seen = False
+    sweeps_since_anchor = 0     # sweeps of the current step since its start / the last jump
     for r in recs:
         kind, a = parse(r)
         if kind == "F":
@@ -189,16 +198,24 @@ def oracle(times, recs, tr, status, tape_driven=True):
             if len(fills) != 1 or fills[0] != times[k + 1]:
                 return f"step {k} completed with fills {fills!r}, expected exactly [{times[k + 1]!r}]", None
             fills, step = [], step + 1
+            sweeps_since_anchor = 0
         elif kind == "W":
             k, t0, t1 = int(a[0]), b2f(a[1]), b2f(a[2])
             if k != step:
                 return f"sweep for step {k} while step {step} is in progress", None
             if not (times[k] <= t0 <= times[k + 1] and times[k] <= t1 <= times[k + 1]):
                 return f"sweep ({t0!r} -> {t1!r}) leaves step {k} = [{times[k]!r}, {times[k + 1]!r}]", None
+            # C18Term.search_closes: opening sweep + at most K + 1 further sweeps until the jump, K from C19Term
+            sweeps_since_anchor += 1
+            nb = iter_bound(times[k], times[k + 1], 1.0, 1.0)
+            if nb is not None and sweeps_since_anchor > nb[0] + 2:
+                return (f"root search in step {k} = [{times[k]!r}, {times[k + 1]!r}] still open after {sweeps_since_anchor} sweeps; "
+                        f"C18Term.search_closes bounds it by K + 2 = {nb[0] + 2} (m={nb[1]}, n={nb[2]}, {nb[3]})"), None
         elif kind == "J":
             t = b2f(a[0])
             if not (times[step] <= t <= times[step + 1]):
                 return f"jump at {t!r} outside step {step}", None
+            sweeps_since_anchor = 0
     for (t, a, b, fa, fb) in getattr(tr, "jump_info", []):
         if not (abs(b - a) < 1 and fa * fb <= 0 and (t == a or t == b)):
             return f"jump at {t!r} not at an end of a converged sign-change bracket a={a!r} b={b!r} fa={fa!r} fb={fb!r}", None
@@ -406,14 +423,18 @@ def check(rep: Report, tier: str, seed: int) -> None:
                 "(grid, tape) bit patterns")
     rep.assumptions = [
         "liveness hypothesis (named in the theorem): finitely many jumps; unconditional termination is refuted in Lean (zeno)",
-        "search length in steps whose bracket touches 0 (first step) or with t_{k+1} >= 3 t_k: C19 TerminatesAlways, not proved; "
-        "validated here by running the real class to convergence in every tape/physics run",
+        "search length: bounded for every step incl. the first (C18Term.search_closes with C19Term.within_pos_bracket / "
+        "within_nonneg_bracket, exact arithmetic); also validated by running the real class to convergence in every tape/physics run",
         "environment contract: random.uniform draws in [0,1]; post-jump norm passes the code's own isclose assert",
         "binary64 rounding is outside the theorems (same definitions over an ordered field); the correspondence is bit-exact",
         "local kernels (_evolve etc.) abstracted to events: C18 is about the stepping logic only",
     ]
     compat.install()
     lean_stage(rep, PROP_MODULE, AUDIT, thorough=(tier == "thorough"))
+    ob, cmd = list(rep.obligations), rep.checker_cmd
+    lean_stage(rep, TERM_MODULE, TERM_AUDIT, thorough=(tier == "thorough"))
+    rep.obligations = ob + [o for o in rep.obligations if o not in ob]
+    rep.checker_cmd = cmd + " ; " + rep.checker_cmd
     rng = seeded(seed * 7919 + 18)
     quick = tier == "quick"
     lines, pending = [], []
